@@ -184,7 +184,7 @@ def tokens(e, minimal, prio=0, right=False):
         t = tokens(e[2], minimal, p, False) + [e[1]] + tokens(e[3], minimal, p, True)
         need = (not minimal) or p < prio or (p == prio and right)
         return ['('] + t + [')'] if need else t
-    t = tokens(e[1], minimal, 2) + ['?'] + tokens(e[2], minimal, 0) + [':'] + tokens(e[3], minimal, 1, False)
+    t = tokens(e[1], minimal, 2) + ['?'] + tokens(e[2], minimal, 0) + [':'] + tokens(e[3], minimal, 1, True)
     need = (not minimal) or prio > 1 or (prio == 1 and not right)
     return ['('] + t + [')'] if need else t
 
@@ -224,6 +224,32 @@ def gen_if_cases(ctx, n, depth):
         e = S.gen_expr(rng, S.DM_PP, rng.randint(1, depth), types=types, pp=True, small=rng.random() < 0.5)
         # INTMAX_MIN has no literal: keep literals > INTMAX_MIN
         out.append((e, rng.random() < 0.5))
+    return out + gen_ternary_cases(rng, max(40, n // 4))
+
+
+def gen_ternary_cases(rng, n):
+    """nested conditionals in condition-, then- and else-position with binary operators of every priority around them
+    (rendered with minimal parentheses: a ? b : c ? d : e is a ? b : (c ? d : e))"""
+    ops = list(PREC)
+    def lit():
+        return ('lit', 'llong', rng.choice([0, 1, 2, 3, 5, 7]))
+    def operand(d):
+        r = rng.random()
+        if d <= 0 or r < 0.3:
+            return lit()
+        if r < 0.75:
+            return cond(d - 1)
+        op = rng.choice(ops)
+        b = lit() if op in ('<<', '>>') else operand(d - 1)
+        return ('bin', op, operand(d - 1), b)
+    def cond(d):
+        return ('cond', operand(d), operand(d), operand(d))
+    out = []
+    for _ in range(n):
+        e = cond(2)
+        if rng.random() < 0.5:
+            e = ('bin', rng.choice(ops), e, lit()) if rng.random() < 0.5 else ('bin', rng.choice([o for o in ops if o not in ('<<', '>>')]), lit(), e)
+        out.append((e, True))
     return out
 
 
@@ -307,6 +333,39 @@ def gen_macro_program(rng, safe=False):
     return '\n'.join(lines) + '\n'
 
 
+def gen_paste_program(rng):
+    """## and # whose operands are macro names (object- and function-like), left and right of ##: the operands of
+    ## / # must NOT be macro-expanded (C11 6.10.3.1p1), the result of ## is rescanned. Pastes only form identifiers
+    (identifier ## identifier/number) so that the known pp-number finding is not touched."""
+    lines = ['#define N 4', '#define M N', '#define Nx 100', '#define xN 200', '#define NM 300', '#define FN(a) a + 1',
+             '#define FNx 400', '#define xFN(a) a - 1', '#define CAT(a, b) a ## b', '#define CAT3(a, b, c) a ## b ## c',
+             '#define LCAT(a) a ## _t', '#define RCAT(a) pre_ ## a', '#define STR(a) #a', '#define XSTR(a) STR(a)',
+             '#define BOTH(a, b) a ## b a b #a', '#define XCAT(a, b) CAT(a, b)']
+    names = ['N', 'M', 'FN', 'x', 'q']
+    for _ in range(rng.randint(4, 8)):
+        k = rng.randrange(9)
+        a, b, c = rng.choice(names), rng.choice(names + ['7']), rng.choice(names + ['2'])
+        if k == 0:
+            lines.append('CAT(%s, %s) ;' % (a, b))
+        elif k == 1:
+            lines.append('CAT3(%s, %s, %s) ;' % (a, b, c))
+        elif k == 2:
+            lines.append('LCAT(%s) RCAT(%s) ;' % (a, rng.choice(names)))
+        elif k == 3:
+            lines.append('STR(%s) XSTR(%s) ;' % (a, rng.choice(['N', 'M', 'x'])))
+        elif k == 4:
+            lines.append('BOTH(%s, %s) ;' % (a, rng.choice(['N', 'M', 'x', 'q'])))
+        elif k == 5:
+            lines.append('XCAT(%s, %s) ;' % (rng.choice(['x', 'q', 'FN']), b))   # left operand must stay an identifier
+        elif k == 6:
+            lines.append('CAT(%s, %s)(3) ;' % (rng.choice(['x', 'F']), rng.choice(['FN', 'N'])))
+        elif k == 7:
+            lines.append('CAT(N, %s) CAT(%s, N) CAT(M, N) ;' % (rng.choice(['x', 'M']), rng.choice(['x', 'M'])))
+        else:
+            lines.append('STR(%s) CAT(%s, %s) ;' % (rng.choice(['FN', 'N']), a, b))
+    return '\n'.join(lines) + '\n'
+
+
 def gcc_E(src):
     p = subprocess.run(['gcc', '-E', '-P', '-x', 'c', '-std=c11', '-'], input=src, stdout=subprocess.PIPE,
                        stderr=subprocess.PIPE, text=True, timeout=30)
@@ -343,7 +402,7 @@ def macro_differential(ctx, n):
     stats = {'programs': 0, 'agree': 0, 'gcc_rejects': 0, 'strict_programs': 0, 'strict_differ': 0, 'classes': {}}
     for i in range(2 * n):
         safe = i % 2 == 0
-        src = gen_macro_program(ctx.rng, safe)
+        src = gen_paste_program(ctx.rng) if i % 4 == 0 else gen_macro_program(ctx.rng, safe)
         g = gcc_E(src)
         if g is None:
             stats['gcc_rejects'] += 1
@@ -373,7 +432,7 @@ def macro_differential(ctx, n):
 
 # ------------------------------------------------------------------ run
 KNOWN_UNSIGNED = [('-1 < 0u', 0), ('(2 - 3u) > 0', 1), ('(1 ? -1 : 0u) < 0', 0)]
-FIXED_WITNESSES = [('-7 / 2 == -3', 1), ('-7 % 2 == -1', 1), ('7 / -2 == -3', 1), ('7 % -2 == 1', 1)]
+FIXED_WITNESSES = [('(1 ? 0 : 0 ? 5 : 7) == 0', 1), ('(0 ? 1 : 1 ? 2 : 3) == 2', 1), ('-7 / 2 == -3', 1), ('-7 % 2 == -1', 1), ('7 / -2 == -3', 1), ('7 % -2 == 1', 1)]
 
 
 def is_fixed_tree():
